@@ -242,14 +242,40 @@ type PoolChooser interface {
 }
 
 type Pool struct {
-	New   func() any
-	real  sync.Pool
-	once  sync.Once
-	items []any
+	New        func() any
+	real       sync.Pool
+	once       sync.Once
+	items      []any
+	registered bool
+}
+
+var (
+	poolsMu sync.Mutex
+	pools   []*Pool
+)
+
+func (p *Pool) register() {
+	if !p.registered {
+		p.registered = true
+		poolsMu.Lock()
+		pools = append(pools, p)
+		poolsMu.Unlock()
+	}
+}
+
+// ResetPools empties the scheduler-mode contents of every pool (called at the start of each
+// explored execution so that executions do not influence each other).
+func ResetPools() {
+	poolsMu.Lock()
+	for _, p := range pools {
+		p.items = nil
+	}
+	poolsMu.Unlock()
 }
 
 func (p *Pool) Get() any {
 	if h := cur(); h != nil {
+		p.register()
 		h.Yield("Pool.Get", nil)
 		if pc, ok := h.(PoolChooser); ok && len(p.items) > 0 {
 			i := pc.Choose(len(p.items))
@@ -274,6 +300,7 @@ func (p *Pool) Get() any {
 
 func (p *Pool) Put(x any) {
 	if h := cur(); h != nil {
+		p.register()
 		p.items = append(p.items, x)
 		h.Yield("Pool.Put", nil)
 		return
